@@ -164,6 +164,12 @@ class Builtins(OpsMixin, LoopsMixin):
                 yield from ex.call_function(p, ci.getters[attr], [], {}, node, self_val=v.obj)
                 return
             raise Unsupported("super().%s" % attr)
+        if isinstance(v, VObj) and attr == "__dict__":
+            yield p, VFunc("builtin", "objdict", self_val=v)          # only `.get(name[, default])` is modelled
+            return
+        if isinstance(v, VFunc) and v.kind == "builtin" and v.name == "objdict" and attr == "get":
+            yield p, VFunc("builtin", "objdict.get", self_val=v.self_val)
+            return
         if isinstance(v, VObj):
             if v.cls in ex.repo.classes:
                 kind, ci, pay = ex.repo.find_member(v.cls, attr)
@@ -327,7 +333,7 @@ class Builtins(OpsMixin, LoopsMixin):
             p.heap[attr] = z3.Store(arr, obj.t, elem_to_term(val, srt) if not isinstance(val, VDyn) else val.t)
             return [p]
         if isinstance(obj, VOpaque):
-            c = ex.reg.get("opaque.%s.setter" % attr)
+            c = self.opaque_contract(ex, obj, attr + ".setter")
             if c is not None:
                 out = []
                 for p1, newv in ex.apply_contract(p, c, [v], {}, node, self_val=obj):
@@ -401,8 +407,12 @@ class Builtins(OpsMixin, LoopsMixin):
     def opaque_truth_term(self, t):
         return self.OPAQUE_TRUTH(t)
 
+    def opaque_contract(self, ex, v, attr):
+        c = ex.reg.get("opaque:%s.%s" % (v.tag, attr)) if getattr(v, "tag", "") else None
+        return c if c is not None else ex.reg.get("opaque.%s" % attr)
+
     def opaque_getattr(self, ex, p, v, attr, node):
-        c = ex.reg.get("opaque.%s" % attr)
+        c = self.opaque_contract(ex, v, attr)
         if c is not None:
             if c.note == "property":
                 yield from ex.apply_contract(p, c, [], {}, node, self_val=v)
@@ -417,7 +427,7 @@ class Builtins(OpsMixin, LoopsMixin):
         raise Unsupported("attribute .%s of opaque %s at line %s" % (attr, v.tag, getattr(node, "lineno", "?")))
 
     def opaque_getitem(self, ex, p, v, idx, node):
-        c = ex.reg.get("opaque.__getitem__")
+        c = self.opaque_contract(ex, v, "__getitem__")
         if c is None:
             raise Unsupported("subscript of opaque value at line %s" % getattr(node, "lineno", "?"))
         yield from ex.apply_contract(p, c, [idx], {}, node, self_val=v)
@@ -459,7 +469,7 @@ class Builtins(OpsMixin, LoopsMixin):
         if isinstance(obj, VObj):
             return [p1 for p1, _ in self._dunder(ex, p, obj, "__setitem__", [idx, v], node)]
         if isinstance(obj, VOpaque):
-            c = ex.reg.get("opaque.__setitem__")
+            c = self.opaque_contract(ex, obj, "__setitem__")
             if c is not None:
                 out = []
                 for p1, newv in ex.apply_contract(p, c, [idx, v], {}, node, self_val=obj):
@@ -920,6 +930,10 @@ class Builtins(OpsMixin, LoopsMixin):
             yield p, VIter("range", a)
 
     def b_enumerate(self, ex, p, args, kwargs, node, f):
+        a0 = ex.deref(p, args[0])
+        if isinstance(a0, VIter) and not self.is_concrete_iter(ex, p, a0):
+            yield p, VIter("enumerate", [a0])          # enumerate(zip(...)) over symbolic sequences: element-wise access
+            return
         for p1, s in self.to_sequence(ex, p, args[0], node):
             yield p1, VIter("enumerate", [s])
 
@@ -993,6 +1007,16 @@ class Builtins(OpsMixin, LoopsMixin):
     def b_unknown_setter(self, ex, p, args, kwargs, node, f):
         self.rebind_aliases(ex, p, f.self_val, VOpaque(V.fresh("cfg", IntS), getattr(f.self_val, "tag", None)))
         yield p, NONE
+
+    def b_objdict_get(self, ex, p, args, kwargs, node, f):
+        """obj.__dict__.get(name[, default]): the instance attribute if it was ever set (unknown here), else default"""
+        obj = f.self_val
+        name = z3.simplify(ex.deref(p, args[0]).t).as_string()
+        srt = self.field_sort(ex, obj.cls, name, undeclared_ok=True)
+        if srt is None:
+            raise Unsupported("__dict__.get(%r)" % name)
+        arr = self.heap_array(p, name, srt)
+        yield p, term_to_elem(arr[obj.t], srt)
 
     def b_getattr(self, ex, p, args, kwargs, node, f):
         attr = z3.simplify(args[1].t).as_string()
@@ -1091,7 +1115,7 @@ class Builtins(OpsMixin, LoopsMixin):
         "hasattr": b_hasattr, "range": b_range, "enumerate": b_enumerate, "zip": b_zip,
         "any": b_anyall, "all": b_anyall, "sum": b_sum, "super": b_super, "print": b_noop,
         "hash": b_hash, "slice.indices": b_slice_indices, "map": b_map, "getattr": b_getattr,
-        "warnings.warn": b_noop, "gc.collect": b_noop, "opaque.unknown_setter": b_unknown_setter,
+        "warnings.warn": b_noop, "gc.collect": b_noop, "opaque.unknown_setter": b_unknown_setter, "objdict.get": b_objdict_get,
     }
 
     # ------------------------------------------------------------------
